@@ -96,6 +96,27 @@ theorem compressor_reuse (l : Lib) (ms : List Bytes) :
   have := compressAll_sinks l cinit ms rfl
   simpa [cinit] using this
 
+/-- **How a message is handed over does not matter**: one `Write`, one per byte, the chunks of
+an `io.Copy`, or no `Write` at all for the empty message (`bytes.Buffer.WriteTo`, which is what
+connect-go's envelope writer does) — a pooled compressor ends in the same state as with one
+`Write` per message, after any number of messages. -/
+theorem handover_irrelevant (l : Lib) (s : CState) (css : List (List Bytes)) :
+    compressVia l s css = compressAll l s (css.map List.flatten) :=
+  compressVia_eq_compressAll l s css
+
+/-- … hence the i-th destination holds exactly the encoding of the i-th message, whatever the
+earlier messages were and however each was cut into `Write` calls (empty messages with no call
+included). -/
+theorem compressor_reuse_any_handover (l : Lib) (css : List (List Bytes)) :
+    (compressVia l cinit css).done ++ (compressVia l cinit css).dst.toList =
+      css.map (fun cs => l.enc cs.flatten) := by
+  rw [handover_irrelevant, compressor_reuse]
+  simp [List.map_map, Function.comp_def]
+
+-- an empty message with no Write at all between two others: three destinations, the middle one `enc []`
+example : (compressVia toyLib cinit [[[1], [2]], [], [[3]]]).done ++ (compressVia toyLib cinit [[[1], [2]], [], [[3]]]).dst.toList
+    = [toyLib.enc [1, 2], toyLib.enc [], toyLib.enc [3]] := by decide
+
 /-! ## fresh instances, in every environment -/
 
 /-- **Fresh construction round-trips in every environment**: a compressor and a decompressor
